@@ -132,7 +132,30 @@ fn side_by_side(case: &Case, want_batch: Option<bool>) -> Verdict {
 }
 
 pub fn c01(case: &Case) -> Verdict {
-    side_by_side(case, None)
+    match side_by_side(case, None) {
+        Holds => {}
+        v => return v,
+    }
+    // second sentence of C01: a system that fetches only what it declared never sees a borrow-conflict panic caused by a
+    // sibling.  The harness systems really borrow their declared resources; every system stays 1 ms inside run so that
+    // the groups of a stage overlap.  A panic here is reported by the caller (`guarded`) as the C01 violation it is.
+    static N: std::sync::atomic::AtomicUsize = std::sync::atomic::AtomicUsize::new(0);
+    if N.fetch_add(1, std::sync::atomic::Ordering::SeqCst) % 3 != 0 {
+        return Holds;
+    }
+    let (mut live, _) = match prepared(case) {
+        Ok(x) => x,
+        Err(v) => return v,
+    };
+    live.ctx.real_borrow.store(true, std::sync::atomic::Ordering::SeqCst);
+    live.ctx.gate_ms.store(1, std::sync::atomic::Ordering::SeqCst);
+    {
+        let w = &live.world;
+        let d = live.dispatcher.as_mut().unwrap();
+        d.dispatch_par(w);
+        d.dispatch(w);
+    }
+    Holds
 }
 
 // ------------------------------------------------------------------ C02
